@@ -1160,6 +1160,22 @@ func (w *Worker) sqlExec(src string, args []sqlVal) ([][]sqlVal, int, Value) {
 		w.sqlCache[src] = st
 	}
 	db.stmts[src]++
+	if sqlDebug {
+		defer func() {
+			var as []string
+			for _, a := range args {
+				if a.null {
+					as = append(as, "NULL")
+				} else {
+					as = append(as, describe(a.v))
+				}
+			}
+			if len(as) > 6 {
+				as = append(as[:3], as[len(as)-3:]...)
+			}
+			fmt.Fprintf(os.Stderr, "SQL %s %s %v -> tables: %s\n", st.kind, st.table, as, w.sqlDump())
+		}()
+	}
 	if len(args) < st.nparams {
 		panic(pathAbort{"unsupported", fmt.Sprintf("sql: %d arguments for %d parameters: %s", len(args), st.nparams, src)})
 	}
@@ -1395,6 +1411,8 @@ func (w *Worker) sqlScanInto(dest Value, v sqlVal) Value {
 }
 
 // ---------- database/sql intrinsics ----------
+
+var sqlDebug = os.Getenv("GOSMT_SQLDEBUG") != ""
 
 type sqlResultVal struct{ n int }
 
